@@ -127,10 +127,30 @@ func TestFaults(t *testing.T) {
 	nsess := core.Scale(12)
 	shard, _ := core.Shard()
 	total := 0
-	for si := 0; si < nsess; si++ {
-		base := Case{History: rapid.Custom(func(t *rapid.T) play.History {
-			return gen.Rich(t, gen.RichOpts{Copy: true, Auth: true, Helpers: true, MaxMsgs: 10})
-		}).Example(1000*shard + si), EndEOF: true, Stepwise: true}
+	for si := -2; si < nsess; si++ {
+		var base Case
+		if si < 0 {
+			// two fixed sessions around the binary COPY row reader: header, rows, end-of-data trailer,
+			// CopyDone (si == -1: no CopyDone - the stream simply stops behind the trailer); every
+			// position is run with every kind of transport failure
+			if shard != 0 {
+				continue
+			}
+			st := script.Stmt{Cols: []script.Col{{Name: "a", T: "int4"}, {Name: "b", T: "text"}}, Ops: []script.Op{{K: "copyin", Copy: &script.CopySpec{Format: 1, Rows: true, MaxReads: -1, OnAbort: "propagate"}}, {K: "complete", Tag: "COPY"}}}
+			h := play.History{}
+			h.Cfg.SetLimit, h.Cfg.Limit = true, 4096
+			h.Cfg.Table.Q = map[string]script.Outcome{"copy rows": {Stmts: []script.Stmt{st}}}
+			row := "\x00\x02\x00\x00\x00\x04\x00\x00\x00\x07\x00\x00\x00\x03abc"
+			h.Msgs = []script.CMsg{{K: "Q", Query: "copy rows"}, {K: "d", Data: []byte("PGCOPY\n\377\r\n\x00\x00\x00\x00\x00\x00\x00\x00\x00" + row)}, {K: "d", Data: []byte(row + "\xff\xff")}}
+			if si == -2 {
+				h.Msgs = append(h.Msgs, script.CMsg{K: "c"}, script.CMsg{K: "Q", Query: "copy rows"})
+			}
+			base = Case{History: h, EndEOF: true, Stepwise: true}
+		} else {
+			base = Case{History: rapid.Custom(func(t *rapid.T) play.History {
+				return gen.Rich(t, gen.RichOpts{Copy: true, Auth: true, Helpers: true, MaxMsgs: 10})
+			}).Example(1000*shard + si), EndEOF: true, Stepwise: true}
+		}
 		// fault free run: count reads, writes and learn the boundaries
 		env := script.Start(base.Cfg)
 		x := env.NewConn()
@@ -153,11 +173,18 @@ func TestFaults(t *testing.T) {
 		env.Stop()
 		kinds := []string{"eof", "closed", "timeout", "reset"}
 		run := func(f memnet.Fault) {
-			f.Kind = kinds[total%len(kinds)]
-			total++
-			c := base
-			c.Fault = &f
-			core.RunCase(t, "faults", c, runLabelled)
+			ks := []string{kinds[total%len(kinds)]}
+			if si < 0 {
+				ks = kinds
+			}
+			for _, k := range ks {
+				f := f
+				f.Kind = k
+				total++
+				c := base
+				c.Fault = &f
+				core.RunCase(t, "faults", c, runLabelled)
+			}
 		}
 		for k := 1; k <= reads; k++ {
 			run(memnet.Fault{ReadCall: k})
